@@ -11,6 +11,7 @@ from . import common, molprops
 
 SPEC = {
     "level": "exploration",
+    "suite_under_monitor": True,
     "technique": "runtime contract (icontract ensure) on serialize_molecule: parse-back, independent isomorphism matcher, fixed-point re-run",
     "rule": ("cases: M1 n<=4, M2, M3, M4, M5 (formulas whose symbol order differs from atomic-number order, counts 1..12, shared-prefix symbols), M5all "
              "(all 118 elements in one molecule), M7-small up to 3-digit indices, corpus. distinct_nontrivial = distinct emitted strings of molecules with "
